@@ -206,14 +206,16 @@ func bRun(c *bCase, pick func(n int) int) (info bInfo, viol *aViolation, hist st
 		info.segments++
 		cur := bSnapAll(e)
 		if v := bTransition(e, prev, cur, &info); v != nil {
-			// let the other threads go so that nothing stays blocked, then report
-			abandon = true
-			return info, v, e.history(), ""
+			// let the other threads run to their end so that the instance can be closed, then report
+			h := e.history()
+			abandon = !bFinish(s)
+			return info, v, h, ""
 		}
 		prev = cur
 		if v := e.mon.verdict(); v != nil {
-			abandon = true
-			return info, v, e.history(), ""
+			h := e.history()
+			abandon = !bFinish(s)
+			return info, v, h, ""
 		}
 	}
 	vSetYieldExtra(func(int) {})
@@ -234,6 +236,33 @@ func bRun(c *bCase, pick func(n int) int) (info bInfo, viol *aViolation, hist st
 		return info, v, e.history(), ""
 	}
 	return info, nil, "", ""
+}
+
+// bFinish lets every unfinished thread run to its end (round robin) so that the instance can be closed
+// normally after a verdict; false if a thread does not come back (the instance is then abandoned).
+func bFinish(s *bSched) bool {
+	for rounds := 0; rounds < 10000; rounds++ {
+		k := -1
+		for i := range s.done {
+			if !s.done[i] {
+				k = i
+				break
+			}
+		}
+		if k < 0 {
+			return true
+		}
+		s.resume[k] <- struct{}{}
+		select {
+		case ev := <-s.events:
+			if ev.kind != 0 {
+				s.done[ev.thread] = true
+			}
+		case <-time.After(3 * time.Second):
+			return false
+		}
+	}
+	return false
 }
 
 type bSnap map[string]*aSnapKey
